@@ -437,7 +437,7 @@ pub fn worker(args: &[String]) -> i32 {
     let mut idx = 0usize;
     // byte-string targets
     for t in &ts {
-        let n_max = 2 * t.overhead + tier.pick(64, 256) + if t.overhead == 0 { 160 } else { 0 };
+        let n_max = 2 * t.overhead + tier.pick(160, 1024) + if t.overhead == 0 { 160 } else { 0 };
         for n in 0..=n_max {
             // thorough: additionally EVERY single byte of the authentic sample mutated 3 ways
             let extra: usize = if tier == Tier::Thorough && n <= 2 * t.overhead + 96 { 3 * n } else { 0 };
